@@ -2,7 +2,7 @@
 Runs of the loop with the ghost threaded through (`Along`), the bundles of invariants and their
 preservation along every run that avoids the corresponding triggers.
 -/
-import Proofs.Lemmas.ClientInv234
+import Proofs.Lemmas.ClientGhost1
 namespace Client
 open Client.Spec
 
@@ -111,69 +111,56 @@ theorem lstep_events (l : LState) (op : LOp) (h : l.st.events = []) : (lstep l o
 
 /-! ### bundles -/
 
-/-- base bundle: needs only that no CONNACK lowers the limit under what is in use (#17) -/
-structure B0 (l : LState) (g : Ghost) : Prop where
-  inv0 : Inv0 l
-  g0 : GInv0 l g
-  evs : l.st.events = []
-
-theorem B0.step (l : LState) (g : Ghost) (op : LOp) (h : B0 l g) (hn : ¬ unsafeConnack l op) :
-    match (lstep l op).2 with
-    | none => B0 (lstep l op).1 g
-    | some o => B0 (lstep l op).1 (g.step o) := by
-  have h1 := h.inv0.lstep op hn
-  have h2 := h.g0.lstep h.inv0 op
-  have h3 := lstep_events l op h.evs
-  cases ho : (lstep l op).2 with
-  | none => rw [ho] at h2; exact ⟨h1, h2, h3⟩
-  | some o => rw [ho] at h2; exact ⟨h1, h2.of_core, h3⟩
-
-theorem B0.new (ver : Version) (max : Nat) (m : Bool) (h1 : 1 ≤ max) (h2 : max ≤ u16Max) :
-    B0 (LState.new ver max m) (Ghost.init ver max m) :=
-  ⟨Inv0.new ver max m h1 h2, GInv0.new ver max m, rfl⟩
-
-/-- + wire view coupled to the publish table: needs no PUBCOMP on the id of a parked publish (#4/#13) -/
-structure B1 (l : LState) (g : Ghost) : Prop where
-  b0 : B0 l g
-  g1 : GInv1 l g
-
-theorem B1.step (l : LState) (g : Ghost) (op : LOp) (h : B1 l g)
-    (hn : ¬ (unsafeConnack l op ∨ pubcompOnCollision l op)) :
-    match (lstep l op).2 with
-    | none => B1 (lstep l op).1 g
-    | some o => B1 (lstep l op).1 (g.step o) := by
-  have h1 := h.b0.step l g op (fun h' => hn (Or.inl h'))
-  have h2 := h.g1.lstep h.b0.inv0 h.b0.g0 op (fun h' => hn (Or.inr h'))
-  cases ho : (lstep l op).2 with
-  | none => rw [ho] at h1 h2; exact ⟨h1, h2⟩
-  | some o => rw [ho] at h1 h2; exact ⟨h1, h2.of_core⟩
-
-theorem B1.new (ver : Version) (max : Nat) (m : Bool) (h1 : 1 ≤ max) (h2 : max ≤ u16Max) :
-    B1 (LState.new ver max m) (Ghost.init ver max m) :=
-  ⟨B0.new ver max m h1 h2, GInv1.new ver max m⟩
-
 theorem lstep_trans' (l : LState) (h0 : Inv0 l) (op : LOp) :
     LTrans l.st l.pending op (lstep l op).1.st (lstep l op).1.pending := by
   obtain ⟨s, pd⟩ := l
   exact lstep_trans h0 op
 
-/-- state-only invariants carried next to a ghost bundle -/
-theorem Inv2.lstep {l : LState} (h0 : Inv0 l) (h : Inv2 l) (op : LOp) (hn : ¬ idReuseAwaitingComp l op) :
-    Inv2 (lstep l op).1 := by
+/-- state-only invariants -/
+theorem Inv2.lstep {l : LState} (h0 : Inv0 l) (h : Inv2 l) (op : LOp) : Inv2 (lstep l op).1 := by
   have := lstep_trans' l h0 op
   obtain ⟨s, pd⟩ := l
-  exact h.step h0.sinv hn this
+  exact h.step h0 this
 
-theorem Inv3.lstep {l : LState} (h0 : Inv0 l) (h2 : Inv2 l) (h : Inv3 l) (op : LOp) (hn : ¬ failedRecOrComp l op) :
-    Inv3 (lstep l op).1 := by
+theorem Inv3.lstep {l : LState} (h0 : Inv0 l) (h2 : Inv2 l) (h : Inv3 l) (op : LOp) : Inv3 (lstep l op).1 := by
   have := lstep_trans' l h0 op
   obtain ⟨s, pd⟩ := l
-  exact Inv3.step h0.sinv h2 h hn this
+  exact Inv3.step h0.sinv h2 h this
 
-theorem Inv4.lstep {l : LState} (h0 : Inv0 l) (h : Inv4 l) (op : LOp)
-    (hn1 : ¬ cleanWithCollision l op) (hn2 : ¬ failedAckOnCollision l op) : Inv4 (lstep l op).1 := by
+theorem Inv4.lstep {l : LState} (h0 : Inv0 l) (h : Inv4 l) (op : LOp) : Inv4 (lstep l op).1 := by
   have := lstep_trans' l h0 op
   obtain ⟨s, pd⟩ := l
-  exact Inv4.step h hn1 hn2 this
+  exact Inv4.step h this
+
+/-- everything the properties need. Holds on every MQTT 3.1.1 run; MQTT 5 needs that no CONNACK
+    lowers the limit under what is in use (#17, residual: an event-loop matter) -/
+structure B1 (l : LState) (g : Ghost) : Prop where
+  inv0 : Inv0 l
+  g0 : GInv0 l g
+  evs : l.st.events = []
+  i4 : Inv4 l
+  i2 : Inv2 l
+  i3 : Inv3 l
+  g1 : GInv1 l g
+
+theorem B1.step (l : LState) (g : Ghost) (op : LOp) (h : B1 l g) (hn : ¬ unsafeConnack l op) :
+    match (lstep l op).2 with
+    | none => B1 (lstep l op).1 g
+    | some o => B1 (lstep l op).1 (g.step o) := by
+  have h1 := h.inv0.lstep op hn
+  have h2 := h.g0.lstep h.inv0 op
+  have h3 := lstep_events l op h.evs
+  have h4 := h.i4.lstep h.inv0 op
+  have h5 := h.i2.lstep h.inv0 op
+  have h6 := Inv3.lstep h.inv0 h.i2 h.i3 op
+  have h7 := h.g1.lstep h.inv0 h.i2 h.g0 op
+  cases ho : (lstep l op).2 with
+  | none => rw [ho] at h2 h7; exact ⟨h1, h2, h3, h4, h5, h6, h7⟩
+  | some o => rw [ho] at h2 h7; exact ⟨h1, h2, h3, h4, h5, h6, h7⟩
+
+theorem B1.new (ver : Version) (max : Nat) (m : Bool) (h1 : 1 ≤ max) (h2 : max ≤ u16Max) :
+    B1 (LState.new ver max m) (Ghost.init ver max m) :=
+  ⟨Inv0.new ver max m h1 h2, GInv0.new ver max m, rfl, Inv4.new ver max m, Inv2.new ver max m, Inv3.new ver max m,
+    GInv1.new ver max m⟩
 
 end Client
